@@ -105,3 +105,63 @@ for variant, defs in (('ortho', {}), ('compo', {'NO_ORTHO': None})):
         job(id='B.registry.%s.%s' % (variant, entry[6:]), tu='tier_b/registry.cpp', defs=defs, entry=entry, props=props, unwind=12,
             unwindset={'verif_havoc.0': 4096}, objbits=10, carriers=car, timeout=600,
             case_key='RegistryT %s, symbolic tables (%s)' % ('general' if variant == 'ortho' else 'ORTHO_COUNT==0', '10 states/3 compo/1 ortho' if variant == 'ortho' else '8 states/3 compo'))
+
+# ------------------------------------------------------------------ Tier C: step proofs on sample machines
+# python mirror of each machine's declaration (parent, kind) -- only used to enumerate case keys; the C++ side
+# proves the enumeration exhaustive (proof_cfg_count) and checks the declaration against deepRegister().
+class Machine:
+    def __init__(self, name, tu, parents, kinds, strategies=None, defs=None, unwind=12):
+        self.name, self.tu, self.parents, self.kinds, self.defs, self.unwind = name, tu, parents, kinds, defs or {}, unwind
+        self.n = len(parents)
+    def children(self, s): return [c for c in range(self.n) if self.parents[c] == s]
+    def count(self, s):
+        if self.kinds[s] == 'L': return 1
+        cs = [self.count(c) for c in self.children(s)]
+        if self.kinds[s] == 'C': return sum(cs)
+        r = 1
+        for c in cs: r *= c
+        return r
+    def active_set(self, k, s=0):
+        """states active in configuration #k of the sub-tree of s (same enumeration as cfg_set_rec in view.hpp)"""
+        out = [s]
+        if self.kinds[s] == 'C':
+            for c in self.children(s):
+                n = self.count(c)
+                if k < n: out += self.active_set(k, c); break
+                k -= n
+        elif self.kinds[s] == 'O':
+            for c in self.children(s):
+                n = self.count(c); out += self.active_set(k % n, c); k //= n
+        return out
+
+M_RES = Machine('resumable', 'tier_c/m_resumable.cpp', [-1, 0, 0, 2, 2, 0], ['C', 'L', 'C', 'L', 'L', 'L'])
+MACHINES = [M_RES]
+KIND_NAMES = {0: 'change', 1: 'restart', 2: 'resume', 3: 'select', 4: 'utilize', 5: 'randomize', 6: 'schedule'}
+STEP_CARRIERS = [r'R_<.*>::processTransitions', r'R_<.*>::applyRequest', r'RegistryT<.*>::requestImmediate', r'C_<.*>::deepChangeToRequested', r'C_<.*>::deepForwardActive',
+                 r'S_<.*>::deepEnter', r'S_<.*>::deepExit', r'C_<.*>::deepEnter', r'C_<.*>::deepExit', r'R_<.*>::approvedByGuards']
+def machine_jobs(m, kinds=(0, 1, 2), upd_kinds=(0, 1, 2, 6), tier='quick'):
+    base = dict(tu=m.tu, defs=m.defs, unwind=m.unwind, objbits=12, timeout=900)
+    P = ['C01', 'C02', 'C03', 'C04', 'C13', 'C11']
+    for e in ('proof_init', 'proof_exit_enter', 'proof_reset', 'proof_cfg_count'):
+        job(id='C.%s.%s' % (m.name, e[6:]), entry=e, props=P if e != 'proof_cfg_count' else ['C01'], tier=tier, carriers=[r'R_<.*>::initialEnter', r'R_<.*>::finalExit'] if e == 'proof_init' else [],
+            case_key='%s/%s' % (m.name, e[6:]), **base)
+    for k in kinds:
+        for d in range(1, m.n):
+            job(id='C.%s.imm.%s.d%d' % (m.name, KIND_NAMES[k], d), entry='step_immediate', key=[k, d], props=P, tier=tier, carriers=STEP_CARRIERS,
+                case_key='%s/immediate/%s/dest=%d' % (m.name, KIND_NAMES[k], d), **base)
+    ncfg = m.count(0)
+    for c in range(ncfg):
+        act = m.active_set(c)
+        job(id='C.%s.upd.c%d.none' % (m.name, c), entry='step_update', key=[c, -1, 0, 0], props=P, tier=tier, carriers=[r'R_<.*>::update', r'R_<.*>::processRequest'],
+            case_key='%s/update/cfg=%d/no request' % (m.name, c), **base)
+        for i in act:
+            if i == 0: continue
+            for k in upd_kinds:
+                for d in range(1, m.n):
+                    job(id='C.%s.upd.c%d.i%d.%s.d%d' % (m.name, c, i, KIND_NAMES[k], d), entry='step_update', key=[c, i, k, d], props=P, tier=tier,
+                        carriers=[r'R_<.*>::update', r'FullControlBaseT<.*>::changeTo'], case_key='%s/update/cfg=%d/issuer=%d/%s/dest=%d' % (m.name, c, i, KIND_NAMES[k], d), **base)
+    for d1 in range(1, m.n):
+        for d2 in range(1, m.n):
+            job(id='C.%s.q2.d%d.d%d' % (m.name, d1, d2), entry='step_queued2', key=[0, d1, 0, d2], props=['C01', 'C02', 'C03', 'C04', 'C11'], tier=tier, carriers=[r'R_<.*>::changeTo'],
+                case_key='%s/queued pair/change %d then change %d' % (m.name, d1, d2), **base)
+for m in MACHINES: machine_jobs(m)
